@@ -135,5 +135,8 @@ class KDPseudoLabelWrapper(KDWrapper):
         if self.pseudo_labels.ndim == 1:
             return self.pseudo_labels.tolist()
         if self.pseudo_labels.ndim == 2:
+            if self.threshold is not None:
+                # thresholded labels (-1 below the threshold) like getitem_class
+                return [self.getitem_class(idx) for idx in range(len(self))]
             return self.pseudo_labels.argmax(dim=1).tolist()
         raise NotImplementedError
